@@ -199,7 +199,156 @@ Section Prims.
     destruct (bytes_eqb_spec (H (mk ++ ct')) (H (mk ++ ct))) as [Eq|Ne]; [|now left].
     right. split; [|exact Eq]. intros Eapp. apply app_inv_head in Eapp. contradiction.
   Qed.
+  (* ---------- PBKDF2 (v3) and version-1 files ---------- *)
+  (* EncryptKey only writes scrypt v3; the other two formats DecryptKey accepts are
+     described by the document a conforming writer produces. *)
+  Definition v3_pbkdf2_file (addr id ct iv mac salt : bytes) (c : Z) : keyfile :=
+    mkKeyfile (JNum true 3) (JNum true 3) (JStr (hex_encode addr)) (JStr id) JObj
+      (JStr ascii_aes_128_ctr) (JStr (hex_encode ct)) JObj (JStr (hex_encode iv))
+      (JStr ascii_pbkdf2) JObj (JStr (hex_encode mac))
+      (JStr (hex_encode salt)) (JNum true 32) JMissing JMissing JMissing (JNum true c) (JStr ascii_hmac_sha256).
+
+  Definition v1_scrypt_file (addr id cipher ct iv mac salt : bytes) (n r p : Z) : keyfile :=
+    mkKeyfile (JStr ascii_1) (JStr ascii_1) (JStr (hex_encode addr)) (JStr id) JObj
+      (JStr cipher) (JStr (hex_encode ct)) JObj (JStr (hex_encode iv))
+      (JStr ascii_scrypt) JObj (JStr (hex_encode mac))
+      (JStr (hex_encode salt)) (JNum true 32) (JNum true n) (JNum true r) (JNum true p) JMissing JMissing.
+
+  Lemma ascii_pbkdf2_not_scrypt : bytes_eqb ascii_pbkdf2 ascii_scrypt = false.
+  Proof. reflexivity. Qed.
+
+  Lemma decrypt_v3_pbkdf2_file addr id ct iv mac salt c auth :
+    decrypt_key (v3_pbkdf2_file addr id ct iv mac salt c) auth =
+    match kdf (KPbkdf2 c) auth salt 32 with
+    | PErr => Err
+    | PPanic => Panic
+    | POk dk =>
+      match slice 16 32 dk with
+      | None => Panic
+      | Some mk =>
+        if bytes_eqb (H (mk ++ ct)) mac then
+          match slice 0 16 dk with
+          | None => Panic
+          | Some ek => match aes_ctr ek iv ct with
+                       | POk kb => Ok (kb, pub_addr kb) | PErr => Err | PPanic => Panic end
+          end
+        else Err
+      end
+    end.
+  Proof.
+    unfold KeystoreModel.decrypt_key, v3_pbkdf2_file.
+    cbn [kf_version_exact kf_version kf_address kf_id kf_crypto kf_cipher kf_ciphertext kf_cipherparams kf_iv
+         kf_kdf kf_kdfparams kf_mac as_string as_int as_obj_ok andb Z.eqb Pos.eqb negb].
+    rewrite (bytes_eqb_refl ascii_aes_128_ctr). cbn [negb].
+    unfold check_mac, get_kdf_key.
+    cbn [kp_salt kp_dklen kp_n kp_r kp_p kp_c kp_prf assert_string ensure_int].
+    rewrite !hex_decode_encode. rewrite ascii_pbkdf2_not_scrypt, (bytes_eqb_refl ascii_pbkdf2), (bytes_eqb_refl ascii_hmac_sha256).
+    destruct (kdf (KPbkdf2 c) auth salt 32) as [dk| |]; try reflexivity.
+    destruct (slice 16 32 dk) as [mk|]; try reflexivity.
+    destruct (bytes_eqb (H (mk ++ ct)) mac); try reflexivity.
+    destruct (slice 0 16 dk) as [ek|]; try reflexivity.
+    unfold of_pres. destruct (aes_ctr ek iv ct); reflexivity.
+  Qed.
+
+  Lemma decrypt_v1_scrypt_file addr id cipher ct iv mac salt n r p auth :
+    decrypt_key (v1_scrypt_file addr id cipher ct iv mac salt n r p) auth =
+    match kdf (KScrypt n r p) auth salt 32 with
+    | PErr => Err
+    | PPanic => Panic
+    | POk dk =>
+      match slice 16 32 dk with
+      | None => Panic
+      | Some mk =>
+        if bytes_eqb (H (mk ++ ct)) mac then
+          match slice 0 16 dk with
+          | None => Panic
+          | Some dk16 => match aes_cbc_dec (firstn 16 (H dk16)) iv ct with
+                         | POk kb => Ok (kb, pub_addr kb) | PErr => Err | PPanic => Panic end
+          end
+        else Err
+      end
+    end.
+  Proof.
+    unfold KeystoreModel.decrypt_key, v1_scrypt_file.
+    cbn [kf_version_exact kf_version kf_address kf_id kf_crypto kf_cipher kf_ciphertext kf_cipherparams kf_iv
+         kf_kdf kf_kdfparams kf_mac as_string as_int as_obj_ok andb].
+    rewrite (bytes_eqb_refl ascii_1).
+    unfold check_mac, get_kdf_key.
+    cbn [kp_salt kp_dklen kp_n kp_r kp_p kp_c kp_prf assert_string ensure_int].
+    rewrite !hex_decode_encode. rewrite (bytes_eqb_refl ascii_scrypt).
+    destruct (kdf (KScrypt n r p) auth salt 32) as [dk| |]; try reflexivity.
+    destruct (slice 16 32 dk) as [mk|]; try reflexivity.
+    destruct (bytes_eqb (H (mk ++ ct)) mac); try reflexivity.
+    destruct (slice 0 16 dk) as [dk16|]; try reflexivity.
+    unfold of_pres. destruct (aes_cbc_dec (firstn 16 (H dk16)) iv ct); reflexivity.
+  Qed.
+
+  Theorem roundtrip_pbkdf2 kb addr id auth salt iv c dk ek mk ct :
+    (forall k i x y, aes_ctr k i x = POk y -> aes_ctr k i y = POk x) ->
+    kdf (KPbkdf2 c) auth salt 32 = POk dk -> slice 0 16 dk = Some ek -> slice 16 32 dk = Some mk ->
+    aes_ctr ek iv kb = POk ct ->
+    decrypt_key (v3_pbkdf2_file addr id ct iv (H (mk ++ ct)) salt c) auth = Ok (kb, pub_addr kb).
+  Proof.
+    intros Inv K S1 S2 A.
+    rewrite decrypt_v3_pbkdf2_file, K, S2, bytes_eqb_refl, S1, (Inv _ _ _ _ A). reflexivity.
+  Qed.
+
+  (* version 1: the writer CBC-encrypted kb under Keccak(dk[:16])[:16]; the premise is
+     that aesCBCDecrypt inverts that for this key, IV and ciphertext *)
+  Theorem roundtrip_v1 kb addr id cipher auth salt iv n r p dk dk16 mk ct :
+    kdf (KScrypt n r p) auth salt 32 = POk dk -> slice 0 16 dk = Some dk16 -> slice 16 32 dk = Some mk ->
+    aes_cbc_dec (firstn 16 (H dk16)) iv ct = POk kb ->
+    decrypt_key (v1_scrypt_file addr id cipher ct iv (H (mk ++ ct)) salt n r p) auth = Ok (kb, pub_addr kb).
+  Proof.
+    intros K S1 S2 A. rewrite decrypt_v1_scrypt_file, K, S2, bytes_eqb_refl, S1, A. reflexivity.
+  Qed.
+
+  Theorem wrong_passphrase_fails_pbkdf2 addr id auth' salt iv c ct mk dk' mk' :
+    kdf (KPbkdf2 c) auth' salt 32 = POk dk' -> slice 16 32 dk' = Some mk' -> mk' <> mk ->
+    decrypt_key (v3_pbkdf2_file addr id ct iv (H (mk ++ ct)) salt c) auth' = Err \/
+    collision (mk' ++ ct) (mk ++ ct).
+  Proof.
+    intros K' S' Hne. rewrite decrypt_v3_pbkdf2_file, K', S'.
+    destruct (bytes_eqb_spec (H (mk' ++ ct)) (H (mk ++ ct))) as [Eq|Ne]; [|now left].
+    right. split; [|exact Eq]. intros Eapp. apply app_inv_tail in Eapp. contradiction.
+  Qed.
+
+  Theorem wrong_passphrase_fails_v1 addr id cipher auth' salt iv n r p ct mk dk' mk' :
+    kdf (KScrypt n r p) auth' salt 32 = POk dk' -> slice 16 32 dk' = Some mk' -> mk' <> mk ->
+    decrypt_key (v1_scrypt_file addr id cipher ct iv (H (mk ++ ct)) salt n r p) auth' = Err \/
+    collision (mk' ++ ct) (mk ++ ct).
+  Proof.
+    intros K' S' Hne. rewrite decrypt_v1_scrypt_file, K', S'.
+    destruct (bytes_eqb_spec (H (mk' ++ ct)) (H (mk ++ ct))) as [Eq|Ne]; [|now left].
+    right. split; [|exact Eq]. intros Eapp. apply app_inv_tail in Eapp. contradiction.
+  Qed.
 End Prims.
+
+(* ---------- the MAC covers neither version nor cipher ---------- *)
+(* all members the code looks at, except the two version members, are equal *)
+Definition same_but_version (f g : keyfile) : Prop :=
+  kf_address f = kf_address g /\ kf_id f = kf_id g /\ kf_crypto f = kf_crypto g /\ kf_cipher f = kf_cipher g /\
+  kf_ciphertext f = kf_ciphertext g /\ kf_cipherparams f = kf_cipherparams g /\ kf_iv f = kf_iv g /\
+  kf_kdf f = kf_kdf g /\ kf_kdfparams f = kf_kdfparams g /\ kf_mac f = kf_mac g /\ kp_salt f = kp_salt g /\
+  kp_dklen f = kp_dklen g /\ kp_n f = kp_n g /\ kp_r f = kp_r g /\ kp_p f = kp_p g /\ kp_c f = kp_c g /\
+  kp_prf f = kp_prf g.
+
+(* A file written by EncryptKey whose version is changed to "1" passes the MAC
+   check and is handed to AES-CBC: whenever aesCBCDecrypt accepts the CTR
+   ciphertext (valid PKCS7 padding, about 1 in 256 files), bare DecryptKey
+   returns those bytes as the key. *)
+Lemma version_downgrade kdf aes_ctr aes_cbc_dec H pub_addr addr id auth salt iv n p dk dk16 mk ct kb' :
+  kdf (KScrypt n 8 p) auth salt 32%Z = POk dk -> slice 0 16 dk = Some dk16 -> slice 16 32 dk = Some mk ->
+  aes_cbc_dec (firstn 16 (H dk16)) iv ct = POk kb' ->
+  let f := v3_scrypt_file addr id ct iv (H (mk ++ ct)) salt n p in
+  let f' := v1_scrypt_file addr id ascii_aes_128_ctr ct iv (H (mk ++ ct)) salt n 8 p in
+  same_but_version f f' /\
+  decrypt_key kdf aes_ctr aes_cbc_dec H pub_addr f' auth = Ok (kb', pub_addr kb').
+Proof.
+  intros K S1 S2 A f f'. split.
+  - unfold same_but_version, f, f'. cbn. repeat split.
+  - unfold f'. now apply (roundtrip_v1 kdf aes_ctr aes_cbc_dec H pub_addr kb' addr id ascii_aes_128_ctr auth salt iv n 8 p dk dk16 mk ct).
+Qed.
 
 (* ---------- a document on which DecryptKey panics, whatever the primitives ---------- *)
 Definition panic_file : keyfile :=
